@@ -107,7 +107,8 @@ Definition tinvb (s : gst) (t : Z) : bool :=
 Definition pc_wfb (p : pc) : bool :=
   match p with
   | PPokeProbe _ n f => (n =? 1) && floor_ok f
-  | PSigInc _ rem f | PSigPost _ rem f | PPendReq _ rem f | PPoolLoad _ rem f | PPoolLoop _ rem f _ => (rem =? 1) && floor_ok f
+  | PSigInc _ rem f | PSigPost _ rem f | PPendReq _ rem f | PPoolLoad _ rem f => (rem =? 1) && floor_ok f
+  | PPoolLoop _ rem f tc => (rem =? 1) && floor_ok f && (- FLOOR_B <=? tc) && (tc <=? RQ_MAX_PTHREAD_COUNT)
   | PCreate _ rem => rem =? 1
   | _ => true
   end.
